@@ -332,12 +332,12 @@ func runC07(c *Ctx) {
 			return
 		}
 		and, ok := unspill(m).(*ssa.BinOp)
-		if !ok || and.Op != token.AND {
+		if !ok || (and.Op != token.AND && and.Op != token.AND_NOT) {
 			bad = "the pad bits are not tweak & mask"
 			return
 		}
 		x, y := and.X, and.Y
-		if _, isC := x.(*ssa.Const); isC {
+		if _, isC := x.(*ssa.Const); isC && and.Op == token.AND {
 			x, y = y, x
 		}
 		k, okk := intConst(y)
@@ -346,6 +346,9 @@ func runC07(c *Ctx) {
 			return
 		}
 		encMask = k & 0xff
+		if and.Op == token.AND_NOT {
+			encMask = ^k & 0xff // tweak &^ keep-mask
+		}
 		if encMask != 0xc0 {
 			bad = fmt.Sprintf("only tweak & %#x is padded in: both unused top bits (0xc0) must be random", encMask)
 			return
@@ -365,13 +368,16 @@ func runC07(c *Ctx) {
 		// other uses of the tweak: masks disjoint from the pad mask
 		for _, ref := range *enc.Params[2].Referrers() {
 			bo, ok := ref.(*ssa.BinOp)
-			if !ok || bo.Op != token.AND {
+			if !ok || (bo.Op != token.AND && bo.Op != token.AND_NOT) {
 				bad = "the tweak is used other than through a bit mask at " + p.InstrPos(ref)
 				return
 			}
 			kk, okc := intConst(bo.Y)
-			if !okc {
+			if !okc && bo.Op == token.AND {
 				kk, okc = intConst(bo.X)
+			}
+			if okc && bo.Op == token.AND_NOT {
+				kk = ^kk & 0xff
 			}
 			if !okc || (kk != encMask && kk&encMask != 0) {
 				bad = "a tweak bit is used both for padding and for selection"
@@ -596,42 +602,32 @@ func runC07(c *Ctx) {
 		}
 		_ = as
 		ff := p.Facts(newKp)
-		for _, r := range ff.SuccessReturns() {
-			okR := false
-			// reached from the elligator arm only via the true edge of the call
-			for _, pred := range r.Block().Preds {
-				if pred == call.Block() {
-					if ef, ok := edgeFact(pred, r.Block()); ok && unspill(ef.Cond) == ssa.Value(call) && ef.Pol {
-						okR = true
-					} else {
-						bad = "the keypair is returned even when ScalarBaseMult failed"
-					}
-				}
-			}
-			if !okR && bad == "" {
-				// dominated by the call's success, or on the path without Elligator
-				for _, f := range ff.NC(r.Block()) {
-					if unspill(f.Cond) == ssa.Value(call) && f.Pol {
-						okR = true
-					}
-					if unspill(f.Cond) == ssa.Value(newKp.Params[0]) && !f.Pol {
-						okR = true
-					}
-				}
-			}
-			if !okR && bad == "" {
-				bad = "no success return is tied to ScalarBaseMult's result"
-			}
-		}
-		// failure edge re-enters the loop before the csrand draw
 		draws := p.CallsIn(newKp, M("$M/common/csrand.Bytes"))
 		if len(draws) != 1 {
 			bad = fmt.Sprintf("%d CSPRNG draws", len(draws))
 			return
 		}
-		fail := call.Block().Succs[1]
-		if !(fail == draws[0].Block() || fail.Dominates(draws[0].Block())) || !draws[0].Block().Dominates(call.Block()) {
-			bad = "a failed attempt does not draw a fresh private key"
+		succ := map[ssa.Instruction]bool{}
+		for _, r := range ff.SuccessReturns() {
+			succ[r] = true
+		}
+		if len(succ) == 0 {
+			bad = "no success return"
+			return
+		}
+		isSucc := func(in ssa.Instruction) bool { return succ[in] }
+		// with Elligator requested, no keypair is returned without the transform having run
+		if reachAssuming(newKp, nil, isSucc, map[ssa.Instruction]bool{call: true}, map[ssa.Value]int{newKp.Params[0]: 1}) {
+			bad = "NewKeypair(true) can return a keypair without x25519ell2.ScalarBaseMult having run on it"
+			return
+		}
+		// after a failed transform, nothing is returned before a fresh private key was drawn
+		if reachAssuming(newKp, call, isSucc, map[ssa.Instruction]bool{draws[0]: true}, map[ssa.Value]int{call: 2}) {
+			bad = "the keypair is returned even when ScalarBaseMult failed (no fresh private key is drawn first)"
+			return
+		}
+		if !instrDominates(draws[0], call) {
+			bad = "the private key is not drawn before the transform"
 			return
 		}
 		// tweak = digest[63]; private = copy(priv, digest[:]) with priv the 32-byte private key
